@@ -1,6 +1,7 @@
 import ColoVerif.Model.LegacyTransp1d
 import ColoVerif.Proofs.Transp1dCert
-import ColoVerif.Proofs.Transp1dUnsplit
+import ColoVerif.Proofs.Transp1dKept
+import ColoVerif.Proofs.Transp1dBalanced
 /-!
 # C14 — one-dimensional transportation is optimal and its rounding is memory-safe
 
@@ -19,6 +20,69 @@ def InDomain (pb : Problem) : Prop :=
   pb.s.length = pb.u.length ∧ pb.d.length = pb.v.length ∧
   (∀ x ∈ pb.s, 0 ≤ x) ∧ (∀ x ∈ pb.d, 0 ≤ x) ∧ pb.s.sum ≤ pb.d.sum
 
+/-- non-vacuity of the domain, zeros included -/
+example : InDomain ⟨[0, 1], [0, 1], [0, 1], [0, 1]⟩ :=
+  (checkOk_iff _).mp (by decide)
+
+/-! ## validity -/
+
+/-- FULL.  For every input of the domain `solve` never errors (no out-of-range access, no
+`outOfFuel`) and returns a valid plan: every entry is in range and positive, every source ships
+exactly its supply, no sink receives more than its demand. -/
+theorem t1d_valid (pb : Problem) (h : InDomain pb) :
+    ∃ plan, solve pb = .ok plan ∧ validPlan pb plan = true :=
+  solve_valid pb ((checkOk_iff pb).mpr h)
+
+/-- the same, with `validPlan` unfolded -/
+theorem t1d_valid_unfolded (pb : Problem) (h : InDomain pb) :
+    ∃ plan, solve pb = .ok plan ∧
+      (∀ e ∈ plan, e.1 < pb.u.length ∧ e.2.1 < pb.v.length ∧ 0 < e.2.2) ∧
+      (∀ i, i < pb.u.length → rowSum plan i = pb.s.getD i 0) ∧
+      (∀ j, j < pb.v.length → colSum plan j ≤ pb.d.getD j 0) := by
+  obtain ⟨plan, e, hv⟩ := t1d_valid pb h
+  obtain ⟨h1, h2, h3⟩ := (validPlan_iff pb plan).mp hv
+  refine ⟨plan, e, ?_, h2, h3⟩
+  intro x hx
+  have := List.all_eq_true.mp h1 x hx
+  simpa [Bool.and_eq_true, and_assoc] using this
+
+/-- non-vacuity (unsorted positions, a zero supply, a zero demand, slack) -/
+example : solve ⟨[5, 0, 3], [4, 9, 1], [2, 0, 1], [2, 0, 3]⟩ = .ok [(2, 2, 1), (0, 0, 2)] ∧
+    validPlan ⟨[5, 0, 3], [4, 9, 1], [2, 0, 1], [2, 0, 3]⟩ [(2, 2, 1), (0, 0, 2)] = true := by decide
+
+/-- FULL.  Geometry behind the plan: on the sorted zero-free instance handed to the solver
+(`t1d_solver_instance`), the sweep + `flushPositions` return one position per source such that the
+sources' intervals `[S i + p i, S (i+1) + p i]` on the cumulative-demand axis lie inside
+`[0, D.back()]`, in order and without overlap. -/
+theorem t1d_positions (pb : Problem) (h : InDomain pb) :
+    ∃ p, run (sortedSolver pb) = .ok p ∧ p.length = (sortedSolver pb).u.length ∧
+        (∀ i, i < (sortedSolver pb).u.length → 0 ≤ p.getD i 0 ∧
+          (sortedSolver pb).S.getD (i + 1) 0 + p.getD i 0
+            ≤ (sortedSolver pb).D.getD (sortedSolver pb).v.length 0) ∧
+        (∀ i, i + 1 < (sortedSolver pb).u.length →
+          (sortedSolver pb).S.getD (i + 1) 0 + p.getD i 0
+            ≤ (sortedSolver pb).S.getD (i + 1) 0 + p.getD (i + 1) 0) := by
+  obtain ⟨p, e, _, h1, h2, h3⟩ := run_geometry pb ((checkOk_iff pb).mpr h)
+  exact ⟨p, e, h1, h2, h3⟩
+
+/-- `solve`/`assign` really run the sweep on `sortedSolver pb` -/
+theorem t1d_solver_instance (pb : Problem) (h : InDomain pb) :
+    mkSorter pb = .ok ⟨ord pb.u pb.s, ord pb.v pb.d⟩ ∧
+    convert ⟨ord pb.u pb.s, ord pb.v pb.d⟩ pb = .ok (sortedSolver pb) :=
+  ⟨mkSorter_ok pb h.1 h.2.1, convert_ok pb h.1 h.2.1⟩
+
+/-- FULL.  The plan is read off the positions exactly: on the instance handed to the solver,
+`computeSolution` ships from source `i` to sink `j` the length of the overlap of the intervals
+`[S i + p i, S (i+1) + p i]` and `[D j, D (j+1)]`. -/
+theorem t1d_plan_is_overlap (pb : Problem) (h : InDomain pb) :
+    ∃ p plan, run (sortedSolver pb) = .ok p ∧ computeSolution (sortedSolver pb) p = .ok plan ∧
+      ∀ i j, i < (sortedSolver pb).u.length → j < (sortedSolver pb).v.length →
+        cellSum plan i j = ov (sortedSolver pb) p i j := by
+  obtain ⟨p, plan, e1, _, e2, post⟩ := computeSolution_spec pb ((checkOk_iff pb).mpr h)
+  exact ⟨p, plan, e1, e2, post.cell⟩
+
+/-! ## optimality -/
+
 /-- FULL (weak duality + complementary slackness).  A plan that passes the decidable check
 `certOk` for some potentials `al` (sources) / `be ≥ 0` (sinks) on the line —
 `al i - be j ≤ |u i - v j|` everywhere, equality wherever the plan ships, sinks with positive
@@ -32,71 +96,124 @@ theorem cert_optimal_1d (pb : Problem) (plan plan' : Plan) (al be : List Int)
 example : solve ⟨[0, 3], [1, 2], [2, 1], [2, 2]⟩ = .ok [(0, 0, 2), (1, 1, 1)] ∧
     certOk ⟨[0, 3], [1, 2], [2, 1], [2, 2]⟩ [(0, 0, 2), (1, 1, 1)] [1, 1] [0, 0] = true := by decide
 
-/-- The universal optimality statement of C14 (not proved for all inputs; see `t1d_optimal_partial`). -/
+/-- FULL under exact balance.  For every input of the domain with total supply = total demand
+(what `balanceDemand` produces whenever supply exceeds demand) `solve` returns a valid plan of
+minimum total distance cost.  Proof: the flushed positions are all 0, the plan is the monotone
+coupling, and an explicit Kantorovich potential on the integer line (slope `-sign` of the net
+supply to the left, `Proofs/Transp1dBalanced.lean`) passes `certOk` — for every such input. -/
+theorem t1d_optimal_balanced (pb : Problem) (h : InDomain pb) (hbal : pb.s.sum = pb.d.sum) :
+    ∃ plan, solve pb = .ok plan ∧ validPlan pb plan = true ∧
+      ∀ plan', validPlan pb plan' = true → planCost pb plan ≤ planCost pb plan' :=
+  solve_optimal_balanced pb ((checkOk_iff pb).mpr h) hbal
+
+/-- FULL.  `balanceDemand` followed by `solve` on an instance whose supply is at least its demand
+(sizes consistent, non-negative entries, at least one sink): the balanced problem is in the domain,
+exactly balanced, and `solve` returns a valid plan of minimum cost for it. -/
+theorem t1d_balance_then_solve_optimal (pb : Problem) (hs : pb.s.length = pb.u.length)
+    (hd : pb.d.length = pb.v.length) (hsn : ∀ x ∈ pb.s, 0 ≤ x) (hdn : ∀ x ∈ pb.d, 0 ≤ x)
+    (hm : 0 < pb.v.length) (hdef : pb.d.sum ≤ pb.s.sum) :
+    ∃ pb' plan, balanceDemand pb = .ok pb' ∧ InDomain pb' ∧ pb'.s.sum = pb'.d.sum ∧
+      solve pb' = .ok plan ∧ validPlan pb' plan = true ∧
+      ∀ plan', validPlan pb' plan' = true → planCost pb' plan ≤ planCost pb' plan' := by
+  obtain ⟨pb', plan, h1, h2, h3, h4, h5, h6⟩ := balance_then_solve_optimal pb hs hd hsn hdn hm hdef
+  exact ⟨pb', plan, h1, (checkOk_iff pb').mp h2, h3, h4, h5, h6⟩
+
+/-- non-vacuity: supply 5 > demand 2 -/
+example : balanceDemand ⟨[3, 1], [0, 5], [4, 1], [1, 1]⟩ = .ok ⟨[3, 1], [0, 5], [4, 1], [3, 2]⟩ ∧
+    solve ⟨[3, 1], [0, 5], [4, 1], [3, 2]⟩ = .ok [(1, 0, 1), (0, 0, 2), (0, 1, 2)] := by decide
+
+/-- the certificate itself exists for every balanced input -/
+theorem t1d_cert_exists_balanced (pb : Problem) (h : InDomain pb) (hbal : pb.s.sum = pb.d.sum) :
+    ∃ plan al be, solve pb = .ok plan ∧ certOk pb plan al be = true :=
+  solve_cert_balanced pb ((checkOk_iff pb).mpr h) hbal
+
+/-- non-vacuity: a balanced instance with unsorted positions, a zero supply and a split source -/
+example : InDomain ⟨[7, 0, 2], [1, 9, 4], [3, 0, 2], [2, 2, 1]⟩ ∧
+    ([3, 0, 2] : List Int).sum = ([2, 2, 1] : List Int).sum ∧
+    solve ⟨[7, 0, 2], [1, 9, 4], [3, 0, 2], [2, 2, 1]⟩ = .ok [(2, 0, 2), (0, 2, 1), (0, 1, 2)] :=
+  ⟨(checkOk_iff _).mp (by decide), by decide, by decide⟩
+
+/-- The universal optimality statement of C14 (proved under exact balance: `t1d_optimal_balanced`;
+with slack only per instance: `t1d_optimal_partial`). -/
 def t1d_optimal_full_statement : Prop :=
-  ∀ (pb : Problem) (plan plan' : Plan), InDomain pb → solve pb = .ok plan →
-    validPlan pb plan' = true → validPlan pb plan = true ∧ planCost pb plan ≤ planCost pb plan'
+  ∀ (pb : Problem), InDomain pb → ∃ plan, solve pb = .ok plan ∧ validPlan pb plan = true ∧
+    ∀ plan', validPlan pb plan' = true → planCost pb plan ≤ planCost pb plan'
 
-/-- PARTIAL (per-instance certificate route).  Whenever the plan returned by `solve` passes
-`certOk` for some potentials, it is a valid plan of minimum cost.  The driver computes potentials
-(untrusted Bellman–Ford) and evaluates this very `certOk` on every `cert` op (`cert ok`).  Missing
-for `t1d_optimal_full_statement`: that such potentials exist for every input. -/
-theorem t1d_optimal_partial (pb : Problem) (plan plan' : Plan) (al be : List Int)
-    (_hs : solve pb = .ok plan) (hc : certOk pb plan al be = true)
-    (hv : validPlan pb plan' = true) :
-    validPlan pb plan = true ∧ planCost pb plan ≤ planCost pb plan' := by
-  refine ⟨?_, cert_optimal_core pb plan plan' al be hc hv⟩
-  simp only [certOk, Bool.and_eq_true] at hc
-  exact hc.1.1.1.1
+/-- PARTIAL (per-instance certificate route, needed only when total demand exceeds total supply).
+For every input of the domain `solve` returns a valid plan, and whenever that plan passes `certOk`
+for some potentials it has minimum cost among all valid plans.  The driver computes potentials
+(untrusted Bellman–Ford) and evaluates this very `certOk` on the model's plan on every `cert` op
+(`cert ok`); the harness compares the real plan's cost with an independent exact optimum.
+Missing for `t1d_optimal_full_statement`: that such potentials exist for every input *with slack*
+(i.e. the correctness of the event sweep as an optimiser of the positions). -/
+theorem t1d_optimal_partial (pb : Problem) (h : InDomain pb) :
+    ∃ plan, solve pb = .ok plan ∧ validPlan pb plan = true ∧
+      ∀ al be, certOk pb plan al be = true →
+        ∀ plan', validPlan pb plan' = true → planCost pb plan ≤ planCost pb plan' := by
+  obtain ⟨plan, e, hv⟩ := t1d_valid pb h
+  exact ⟨plan, e, hv, fun al be hc plan' hv' => cert_optimal_core pb plan plan' al be hc hv'⟩
 
-/-- The universal validity statement of C14: on its domain `solve` returns (given enough fuel it
-does not fail, and whenever it returns) a plan that meets every supply exactly, exceeds no demand
-and has positive entries in range. -/
-def t1d_valid_full_statement : Prop :=
-  ∀ (pb : Problem), InDomain pb → ∃ plan, solve pb = .ok plan ∧ validPlan pb plan = true
+/-! ## rounding -/
 
-/-- PARTIAL.  Proved for all inputs of the domain: on the sorted zero-free instance handed to the
-solver, the sweep + `flushPositions` never index out of range and return one position per source
-such that the sources' intervals `[S i + p i, S (i+1) + p i]` on the cumulative-demand axis lie
-inside `[0, D.back()]`, in order and without overlap — the representation `computeSolution` reads
-the plan from (entry `(i,j)` = length of the overlap of source interval `i` with sink interval
-`[D j, D (j+1)]`).  Missing for `t1d_valid_full_statement`: the two-pointer merge of
-`computeSolution` (row sums = interval lengths, column sums ≤ sink lengths) and the index renaming
-of `convertSolutionBack`; both are covered by the direct oracle on every generated case and by
-`validPlan` inside every `cert ok`. -/
-theorem t1d_valid_partial (pb : Problem) (h : InDomain pb) :
-    ∃ p, run (sortedSolver pb) = .ok p ∧ p.length = (sortedSolver pb).u.length ∧
-        (∀ i, i < (sortedSolver pb).u.length → 0 ≤ p.getD i 0 ∧
-          (sortedSolver pb).S.getD (i + 1) 0 + p.getD i 0
-            ≤ (sortedSolver pb).D.getD (sortedSolver pb).v.length 0) ∧
-        (∀ i, i + 1 < (sortedSolver pb).u.length →
-          (sortedSolver pb).S.getD (i + 1) 0 + p.getD i 0
-            ≤ (sortedSolver pb).S.getD (i + 1) 0 + p.getD (i + 1) 0) := by
-  obtain ⟨p, e, _, h1, h2, h3⟩ := run_geometry pb ((checkOk_iff pb).mpr h)
-  exact ⟨p, e, h1, h2, h3⟩
+/-- FULL (after F10's repair), for ALL inputs of the domain — zero supplies and zero demands
+included: `assign` never errors — no out-of-range access anywhere (sorter, sweep, flush, rounding
+walk, mapping back) and the `while` loop of `push` terminates within the fuel the model passes
+(`Err.outOfFuel` impossible) —, returns exactly one entry per source, and — as soon as some sink
+has positive demand — every entry names a sink of positive demand. -/
+theorem t1d_assign_safe (pb : Problem) (h : InDomain pb) :
+    ∃ a, assign pb = .ok a ∧ a.length = pb.u.length ∧
+      ((∃ j, j < pb.v.length ∧ 0 < pb.d.getD j 0) → ∀ k ∈ a, k < pb.v.length ∧ 0 < pb.d.getD k 0) :=
+  assign_total pb ((checkOk_iff pb).mpr h)
 
-/-- `solve`/`assign` really run the sweep on `sortedSolver pb` (ties `t1d_valid_partial` to them). -/
-theorem t1d_solver_instance (pb : Problem) (h : InDomain pb) :
-    mkSorter pb = .ok ⟨ord pb.u pb.s, ord pb.v pb.d⟩ ∧
-    convert ⟨ord pb.u pb.s, ord pb.v pb.d⟩ pb = .ok (sortedSolver pb) :=
-  ⟨mkSorter_ok pb h.1 h.2.1, convert_ok pb h.1 h.2.1⟩
+/-- non-vacuity, and the F10 witness on the repaired model -/
+example : assign ⟨[0, 1], [0, 1], [0, 1], [0, 1]⟩ = .ok [1, 1] := by decide
 
-/-- The statement of C14 about unsplit sources. -/
-def t1d_unsplit_kept_full_statement : Prop :=
-  ∀ (pb : Problem) (plan : Plan) (a : List Nat) (i j : Nat), InDomain pb →
-    solve pb = .ok plan → assign pb = .ok a → i < pb.u.length → 0 < pb.s.getD i 0 →
-    (∀ e ∈ plan, e.1 = i → e.2.1 = j) → pb.v.getD (a.getD i 0) 0 = pb.v.getD j 0
+/-- FULL.  Termination of the sweep: on every instance whose prefix sums are monotone with total
+supply ≤ total demand (`Solver.Dom`; `sortedSolver_dom`: every instance the sorter builds from an
+input of the domain), `push` — whose `while` loop runs on `loopFuel` — started from a state
+satisfying the sweep invariants ends normally, with the loop condition false and the invariants
+re-established for the next source. -/
+theorem t1d_push_terminates (sv : Solver) (dom : sv.Dom) (i : Nat) (hi : i < sv.u.length) (st : St)
+    (inv : Inv sv st) (ei : EvInv st)
+    (hJ : sv.D.getD st.lastOcc 0 - sv.S.getD i 0 ≤ st.lastPosition) :
+    ∃ st', push sv i st = .ok st' ∧ Inv sv st' ∧ EvInv st' ∧
+      sv.D.getD st'.lastOcc 0 - sv.S.getD (i + 1) 0 ≤ st'.lastPosition ∧
+      st'.lastPosition ≤ sv.D.getD (st'.lastOcc + 1) 0 - sv.S.getD (i + 1) 0 := by
+  obtain ⟨st', e, k1, _, k3, k4, k5⟩ := push_total sv dom i hi st inv ei hJ
+  exact ⟨st', e, k1, k3, k4, k5⟩
 
-/-- PARTIAL (complete at the level of the instance handed to the solver).  For every input of the
-domain, with `p` the positions returned by `run` on `sortedSolver pb` (see `t1d_solver_instance`)
-and `a` the result of `computeAssignment`: a source `k` whose interval `[S k + p k, S (k+1) + p k]`
-lies inside sink `j`'s interval `[D j, D (j+1)]` — i.e. a source the plan read off these positions
-does not split — is assigned exactly sink `j`.
-Missing for `t1d_unsplit_kept_full_statement`: "single plan entry ⇒ interval containment" (needs
-the merge of `computeSolution`) and the renaming by `srcOrder`/`snkOrder` in
-`convertSolutionBack`/`convertAssignmentBack`; the direct oracle checks the full statement on
-every generated case. -/
-theorem t1d_unsplit_kept_partial (pb : Problem) (h : InDomain pb)
+/-- non-vacuity: the hypotheses hold for the initial state of every instance of the domain -/
+example (pb : Problem) (h : InDomain pb) (hm : 0 < (sortedSolver pb).v.length) :
+    (sortedSolver pb).Dom ∧ Inv (sortedSolver pb) St.init ∧ EvInv St.init :=
+  ⟨sortedSolver_dom pb ((checkOk_iff pb).mpr h), ⟨hm, hm, Int.le_refl _, by simp [St.init]⟩,
+    ⟨by simp [St.init, SortedEv], by simp [St.init]⟩⟩
+
+/-- FULL, strong form.  A source of positive supply that the plan returned by `solve` does not
+split — all its plan entries name the same sink `j` — is assigned exactly `j` by `assign`. -/
+theorem t1d_unsplit_kept (pb : Problem) (h : InDomain pb) (plan : Plan) (a : List Nat) (i j : Nat)
+    (hs : solve pb = .ok plan) (ha : assign pb = .ok a) (hi : i < pb.u.length)
+    (hpos : 0 < pb.s.getD i 0) (hsingle : ∀ e ∈ plan, e.1 = i → e.2.1 = j) :
+    a.getD i 0 = j :=
+  solve_assign_unsplit pb ((checkOk_iff pb).mpr h) plan a hs ha i j hi hpos hsingle
+
+/-- FULL, in the words of the property: such a source is sent to the plan's sink, or to another
+sink at the same position (the first alternative always holds, by `t1d_unsplit_kept`). -/
+theorem t1d_unsplit_kept_position (pb : Problem) (h : InDomain pb) (plan : Plan) (a : List Nat)
+    (i j : Nat) (hs : solve pb = .ok plan) (ha : assign pb = .ok a) (hi : i < pb.u.length)
+    (hpos : 0 < pb.s.getD i 0) (hsingle : ∀ e ∈ plan, e.1 = i → e.2.1 = j) :
+    a.getD i 0 = j ∨ pb.v.getD (a.getD i 0) 0 = pb.v.getD j 0 :=
+  Or.inl (t1d_unsplit_kept pb h plan a i j hs ha hi hpos hsingle)
+
+/-- non-vacuity: u=[5,0,3], v=[4,9,1], s=[2,0,1], d=[2,0,3]: sources 0 and 2 are unsplit
+(plan entries (0,0,2) and (2,2,1)) and are assigned sinks 0 and 2; the zero-supply source 1
+gets the default sink -/
+example : solve ⟨[5, 0, 3], [4, 9, 1], [2, 0, 1], [2, 0, 3]⟩ = .ok [(2, 2, 1), (0, 0, 2)] ∧
+    assign ⟨[5, 0, 3], [4, 9, 1], [2, 0, 1], [2, 0, 3]⟩ = .ok [0, 2, 2] := by decide
+
+/-- FULL, at the level of the instance handed to the solver: a source `k` whose interval
+`[S k + p k, S (k+1) + p k]` lies inside sink `j`'s interval `[D j, D (j+1)]` is assigned `j`
+by `computeAssignment` (used by `t1d_unsplit_kept`). -/
+theorem t1d_unsplit_contained (pb : Problem) (h : InDomain pb)
     (p : List Int) (a : List Nat) (hrun : run (sortedSolver pb) = .ok p)
     (ha : computeAssignment (sortedSolver pb) p = .ok a) (k j : Nat)
     (hk : k < (sortedSolver pb).u.length) (hj : j < (sortedSolver pb).v.length)
@@ -120,6 +237,8 @@ theorem t1d_round_step (d : List Int) (hpos : ∀ x ∈ d, 0 < x) (pos : Int)
 
 example : walk 4 ((prefixFrom 0 [2, 3, 1]).drop 1) 0 = .ok (1, [5, 6]) := by decide
 
+/-! ## balanceDemand -/
+
 /-- FULL.  `balanceDemand` succeeds whenever there is a sink (or nothing to do), changes only the
 demands, never decreases one, leaves a problem with supply ≤ demand, and is the identity when
 supply ≤ demand already. -/
@@ -133,31 +252,7 @@ theorem balanceDemand_covers (pb : Problem) (hs : pb.s.length = pb.u.length)
 example : balanceDemand ⟨[3, 1], [0, 5], [4, 1], [1, 1]⟩ = .ok ⟨[3, 1], [0, 5], [4, 1], [3, 2]⟩ := by
   decide
 
-/-- FULL (after F10's repair), for ALL inputs of the domain — zero supplies and zero demands
-included: `assign` never errors — no out-of-range access anywhere (sorter, sweep, flush, rounding
-walk, mapping back) and the `while` loop of `push` terminates within the fuel the model passes
-(`Err.outOfFuel` impossible) —, returns exactly one entry per source, and — as soon as some sink
-has positive demand — every entry names a sink of positive demand. -/
-theorem t1d_assign_safe (pb : Problem) (h : InDomain pb) :
-    ∃ a, assign pb = .ok a ∧ a.length = pb.u.length ∧
-      ((∃ j, j < pb.v.length ∧ 0 < pb.d.getD j 0) → ∀ k ∈ a, k < pb.v.length ∧ 0 < pb.d.getD k 0) :=
-  assign_total pb ((checkOk_iff pb).mpr h)
-
-/-- FULL.  Termination of the sweep: on every instance whose prefix sums are monotone with total
-supply ≤ total demand (`Solver.Dom`; `sortedSolver_dom`: every instance the sorter builds from an
-input of the domain), the `while` loop of `push`, started with `loopFuel` from a state satisfying
-the sweep invariants, ends normally with its condition false. -/
-theorem t1d_push_terminates (sv : Solver) (dom : sv.Dom) (i : Nat) (hi : i < sv.u.length) (st : St)
-    (inv : Inv sv st) (ei : EvInv st)
-    (hJ : sv.D.getD st.lastOcc 0 - sv.S.getD i 0 ≤ st.lastPosition) :
-    ∃ st', push sv i st = .ok st' ∧ Inv sv st' ∧ EvInv st' ∧
-      sv.D.getD st'.lastOcc 0 - sv.S.getD (i + 1) 0 ≤ st'.lastPosition ∧
-      st'.lastPosition ≤ sv.D.getD (st'.lastOcc + 1) 0 - sv.S.getD (i + 1) 0 := by
-  obtain ⟨st', e, k1, _, k3, k4, k5⟩ := push_total sv dom i hi st inv ei hJ
-  exact ⟨st', e, k1, k3, k4, k5⟩
-
-/-- non-vacuity, and the F10 witness on the repaired model -/
-example : assign ⟨[0, 1], [0, 1], [0, 1], [0, 1]⟩ = .ok [1, 1] := by decide
+/-! ## the defect repaired by F10 -/
 
 /-- Before the repair of F10 (`Model/LegacyTransp1d.lean`): with u=[0,1], s=[0,1] the write
 `ret[srcOrder[0]]` is out of range — the heap overflow ASan reports on the unrepaired tree. -/
